@@ -6,6 +6,7 @@ From Coq Require Import List String ZArith Bool.
 From Verif Require Import UnionModel UnionProofs UnionDeep UnionDeepProofs UnionEmit K19Proofs.
 From VerifGen Require Import K19.
 From Verif Require PackEmit K21Proofs.
+From Verif Require Import UnionDeepEnc UnionDeepEncProofs.
 From VerifGen Require K21.
 Import ListNotations.
 Open Scope string_scope.
@@ -288,6 +289,47 @@ Example C11_pack_emit_nonvacuous :
   K21.emit pms = PackEmit.PMethod [PackEmit.PLIdent (PackEmit.PIn ["str"; "int"]); PackEmit.PLTry (PM "date" (Some 1%nat) d); PackEmit.PLRaise] /\
   K21.emit [PM "str" None Some; PM "int" None Some] = PackEmit.PIdentity /\
   PackEmit.run_pres (K21.emit pms) (UObj "date" "datetime.date(2020, 1, 1)") = Some (UStr "2020-01-01").
+Proof. cbv zeta. repeat split; reflexivity. Qed.
+
+(* ---------- serialization at any depth ---------- *)
+(* flat: with a member whose branch accepts the value and agreeing branches, the generated packer is the
+   first accepting member in declaration order *)
+Theorem C11_union_encode_ref : forall pms v, pcoherent pms v -> wire_disjoint pms v = true ->
+  existsb (fun m => p_accepts m v) pms = true -> pack_union pms v = ref_pack pms v.
+Proof. exact pack_union_ref. Qed.
+Print Assumptions C11_union_encode_ref.
+
+Definition C11_deep_encode_full : Prop := forall t v, qenc t v = qref t v.
+
+(* qsafe: every union visited while packing v has an accepting member and agreeing branches *)
+Theorem C11_deep_encode_partial : forall t v, qcoh t v -> qsafe t v = true -> qenc t v = qref t v.
+Proof. exact deep_enc_partial. Qed.
+Print Assumptions C11_deep_encode_partial.
+
+(* List[Union[Decimal, int]] holding [5] (Decimal's packer is str(value)): the class-checked identity
+   block is emitted first, so 5 stays 5 although the member declared first would accept it.  Here the
+   generated code is RIGHT and the declaration-order reading is not: the reference [ref_pack] is only the
+   model-internal proxy of "the member matching the value" (membership of a value in a type is judged by
+   the harness); inside the domain [qsafe] all firing branches agree and the two readings coincide. *)
+Theorem C11_deep_encode_refuted : ~ C11_deep_encode_full.
+Proof.
+  intro H.
+  specialize (H (QList (QU [(1%nat, QLeaf "Decimal" false (fun v => match v with UInt 5 => Some (UStr "5") | _ => None end));
+                            (2%nat, QLeaf "int" true Some)]))
+                (UList [UInt 5])).
+  discriminate H.
+Qed.
+Print Assumptions C11_deep_encode_refuted.
+
+Example C11_deep_encode_nonvacuous :
+  let dt := QLeaf "date" false (fun v => match v with UObj "date" _ => Some (UStr "2020-01-01") | _ => None end) in
+  let u := QU [(0%nat, QLeaf "int" true Some); (1%nat, dt); (2%nat, QList (QU [(0%nat, QLeaf "str" true Some); (1%nat, dt)]))] in
+  let t := QDict (QTupF [u; QOpt u]) in
+  let d := UObj "date" "datetime.date(2020, 1, 1)" in
+  let v := UDict [(UStr "k", UTuple [UList [UStr "a"; d]; UNone])] in
+  qsafe t v = true /\ qenc t v = Some (UDict [(UStr "k", UList [UList [UStr "a"; UStr "2020-01-01"]; UNone])]) /\
+  qenc t (UDict [(UStr "k", UTuple [UInt 5; d])]) = Some (UDict [(UStr "k", UList [UInt 5; UStr "2020-01-01"])]) /\
+  qenc t (UDict [(UStr "k", UTuple [UFloat None "1.5"; UNone])]) = None.
 Proof. cbv zeta. repeat split; reflexivity. Qed.
 
 (* ---------- Literal (after fix 0e88a65: the class of the value is compared too) ---------- *)
